@@ -88,7 +88,23 @@ class Node:
     def __str__(self):
         if isinstance(self.data, str):
             return self.data
-        return '(' + ' '.join(map(str, self.data)) + ')'
+        # Iterative, as all other traversals: inputs may be nested deeply.
+        res = []
+        visit = [self]
+        while visit:
+            expr = visit.pop()
+            if isinstance(expr, str):
+                res.append(expr)
+            elif isinstance(expr.data, str):
+                res.append(expr.data)
+            else:
+                res.append('(')
+                visit.append(')')
+                for i, child in enumerate(reversed(expr.data)):
+                    if i > 0:
+                        visit.append(' ')
+                    visit.append(child)
+        return ''.join(res)
 
     def __repr__(self):
         if isinstance(self.data, str):
